@@ -5,6 +5,7 @@ import PqlModel.Props.C03Semantics
 import PqlModel.Props.C03Chain
 import PqlModel.Props.C03ChainTake
 import PqlModel.Props.C05ParseStatement
+import PqlModel.Props.C03Full
 #print axioms Pql.C03.C03_bare_key_rewrite
 #print axioms Pql.C03.C03_quoted_key_not_rewritten
 #print axioms Pql.C03.C03_two_conditions_anded
@@ -33,3 +34,17 @@ import PqlModel.Props.C05ParseStatement
 #print axioms Pql.C03.C03_join_link_take
 #print axioms Pql.C03.C03_chain_take
 #print axioms Pql.C03.C03_chain_take_meaning
+#print axioms Pql.C03.BlockSem_joinFree
+#print axioms Pql.C03.C03_chain_unconditional
+#print axioms Pql.C03.C03_chain_take_unconditional
+#print axioms Pql.C03.C03_join_link_sort
+#print axioms Pql.C03.C03_chain_any_after
+#print axioms Pql.C03.C03_statement_semantics
+#print axioms Pql.C03.C03_intended_semantics
+#print axioms Pql.C03.Cex.C03_needs_namesOk_as_is_table
+#print axioms Pql.C03.Cex.C03_needs_namesOk_as_twice
+#print axioms Pql.C03.Cex.C03_needs_namesOk_generated_table
+#print axioms Pql.C03.Cex.C03_needs_namesOk_generated_as
+#print axioms Pql.C03.Cex.C03_needs_namesOk_source
+#print axioms Pql.C03.Cex.C03_join_sort_needs_rect
+#print axioms Pql.C03.Cex.C03_join_sort_needs_aliasFree
